@@ -41,6 +41,15 @@ abbrev P32 : Nat := 4294967296
 /-- `p & (2*nn-1)` -/
 @[inline] def posMask (p : Int) (twoN : Nat) : Nat := (p % (twoN : Int)).toNat
 
+/-- coefficient arithmetic used by the polymorphic kernels -/
+structure Ops (α : Type) where
+  zero : α
+  neg : α → α
+  add : α → α → α
+  sub : α → α → α
+
+def i64Ops : Ops Int := { zero := 0, neg := negS, add := addS, sub := subS }
+
 def isPow2 (n : Nat) : Bool := n != 0 && (n &&& (n - 1)) == 0
 
 end Spq
